@@ -701,6 +701,12 @@ def feasible_reach(body, start=0, cut_edges=(), cut_blocks=(), init=None, pins=N
     This makes `matches!(v, A | B)` / `let flag = ..; if flag` equivalent to branching on the original test."""
     cut_edges = set(cut_edges)
     cut_blocks = set(cut_blocks)
+    relevant = getattr(body, "_switch_relevant", None)
+    if relevant is None:
+        relevant = switch_relevant_locals(body)
+        body._switch_relevant = relevant
+    if pins:
+        relevant = relevant | set(pins)
     s0 = (start, frozenset((init or {}).items()))     # init: local -> ("b"|"i"|"v", value)
     seen = {s0}
     st = [s0]
@@ -710,7 +716,7 @@ def feasible_reach(body, start=0, cut_edges=(), cut_blocks=(), init=None, pins=N
         if bb in cut_blocks:
             continue
         blocks.add(bb)
-        known = bool_transfer(body, bb, kn, pins)
+        known = prune_known(bool_transfer(body, bb, kn, pins), relevant)
         only = bool_switch_target(body, bb, known)
         succs = [only] if only is not None else list(body.succ[bb])
         k2 = frozenset(known.items())
@@ -730,3 +736,63 @@ def switch_target(term, value):
         if v == value:
             return tb
     return term["else"]
+
+
+def switch_relevant_locals(body):
+    """Locals whose (constant) value can influence which way a switch goes: discriminant operands and, backwards,
+    everything they are computed from by the operations bool_transfer understands.  Used to keep product states
+    small: knowledge about other locals is irrelevant for feasibility."""
+    rel = set()
+    for blk in body.blocks:
+        t = blk["term"]
+        if t["t"] == "switch":
+            l = op_local(t["d"])
+            if l is not None:
+                rel.add(l)
+    changed = True
+    while changed:
+        changed = False
+        for blk in body.blocks:
+            for s in blk["stmts"]:
+                if s.get("s") != "assign" or s["p"]["p"] or s["p"]["l"] not in rel:
+                    continue
+                rv = s["rv"]
+                srcs = []
+                r = rv["r"]
+                if r == "use":
+                    p = op_place(rv["o"])
+                    if p is not None:
+                        srcs.append(p["l"])
+                elif r in ("un", "cast"):
+                    p = op_place(rv.get("a") or rv.get("o"))
+                    if p is not None:
+                        srcs.append(p["l"])
+                elif r == "bin":
+                    for o in (rv["a"], rv["b"]):
+                        p = op_place(o)
+                        if p is not None:
+                            srcs.append(p["l"])
+                elif r == "discr":
+                    srcs.append(rv["p"]["l"])
+                elif r == "agg":
+                    for o in rv.get("ops", []):
+                        p = op_place(o)
+                        if p is not None:
+                            srcs.append(p["l"])
+                for l in srcs:
+                    if l not in rel:
+                        rel.add(l)
+                        changed = True
+            t = blk["term"]
+            if t["t"] == "call" and not t["dest"]["p"] and t["dest"]["l"] in rel and \
+                    (callee(t) == _TRY_BRANCH or callee(t).endswith("FromResidual::from_residual")):
+                for a in t["args"]:
+                    p = op_place(a)
+                    if p is not None and p["l"] not in rel:
+                        rel.add(p["l"])
+                        changed = True
+    return rel
+
+
+def prune_known(known, relevant):
+    return {k: v for k, v in known.items() if (k[0] if isinstance(k, tuple) else k) in relevant}
